@@ -262,7 +262,7 @@ func runCheck(id, tier string, seed int, repo string, overlay map[string][]byte,
 	for _, o := range obls {
 		run = append(run, o)
 	}
-	results := SolveAll(run, outDir, timeout, 6)
+	results := SolveAll(run, outDir, timeout, 6, false)
 
 	// escalate unknown/timeouts of baseline obligations once with a longer timeout
 	var retry []*Obligation
@@ -273,7 +273,7 @@ func runCheck(id, tier string, seed int, repo string, overlay map[string][]byte,
 		}
 	}
 	if len(retry) > 0 {
-		r2 := SolveAll(retry, outDir, 5*timeout, 4)
+		r2 := SolveAll(retry, outDir, 5*timeout, 4, true)
 		var retry2 []*Obligation
 		for o, r := range r2 {
 			results[o] = r
@@ -283,7 +283,7 @@ func runCheck(id, tier string, seed int, repo string, overlay map[string][]byte,
 		}
 		// last resort (a loaded machine must not turn into an alarm): 20x, two at a time
 		if len(retry2) > 0 && len(retry2) <= 4 && overlay == nil {
-			for o, r := range SolveAll(retry2, outDir, 20*timeout, 2) {
+			for o, r := range SolveAll(retry2, outDir, 10*timeout, 2, true) {
 				results[o] = r
 			}
 		}
@@ -343,9 +343,13 @@ func runCheck(id, tier string, seed int, repo string, overlay map[string][]byte,
 				rep.Verdict = "VIOLATION"
 				violations = append(violations, fmt.Sprintf("VIOLATION property=%s replay=%s%s", id, path, suffix))
 			case inBase:
-				path, _ := writeReplay(id, o, r, eng, cfg)
+				path, reproduced := writeReplay(id, o, r, eng, cfg)
+				suffix := " no-failing-input-found"
+				if reproduced {
+					suffix = ""
+				}
 				rep.Verdict = "VIOLATION"
-				violations = append(violations, fmt.Sprintf("VIOLATION property=%s replay=%s no-failing-input-found", id, path))
+				violations = append(violations, fmt.Sprintf("VIOLATION property=%s replay=%s%s", id, path, suffix))
 			case r.Status == "sat":
 				path, reproduced := writeReplay(id, o, r, eng, cfg)
 				if reproduced {
@@ -606,13 +610,16 @@ func writeReplay(id string, o *Obligation, r SolveResult, eng *Engine, cfg *Prop
 		"solver_output": firstLines(r.Output, 400),
 	}
 	reproduced := false
-	if r.Status == "sat" {
+	if r.Status == "sat" || r.CandidateModel {
+		// a candidate model (found with the quantified background axioms dropped) is only
+		// an input to try: tryReplay accepts it solely on the evidence of the real run
 		if test, out, ok := tryReplay(id, o, r, eng, cfg); test != "" {
 			rp["replay_test"] = test
 			rp["replay_output"] = out
 			reproduced = ok
 		}
 	}
+	rp["candidate_model"] = r.CandidateModel
 	rp["reproduced_on_real_code"] = reproduced
 	data, _ := json.MarshalIndent(rp, "", " ")
 	os.WriteFile(path, data, 0o644)
